@@ -31,33 +31,35 @@ ScopeOf(ast, e) == IF "v" \in DOMAIN e THEN [ok |-> TRUE, sc |-> e.v] ELSE Fill(
 
 (* ---- expressions without stateful functions: the outcome is a function of (input, mode) ---- *)
 (* first step (1-based) of the run that the reference semantics cannot explain, 0 if none *)
-RECURSIVE FirstBadPure(_, _, _, _, _)
-FirstBadPure(run, i, scs, base, ill) ==
-    IF i > Len(run) THEN 0
-    ELSE LET s == run[i] IN
-         IF s[2] = "Z" THEN FirstBadPure(run, i + 1, scs, base, ill)
-         ELSE IF (IF ~scs[s[1]].ok THEN IsErr(s[4]) ELSE OutcomeAgrees(s[2], s[4], base[s[1]], ill[s[1]]))
-              THEN FirstBadPure(run, i + 1, scs, base, ill)
-              ELSE i
+StepOKPure(s, scs, base, ill, hc) ==
+    \/ s[2] = "Z"
+    \/ IF ~scs[s[1]].ok THEN IsErr(s[4]) ELSE OutcomeAgrees(s[2], s[4], base[s[1]], ill[s[1]], hc)
+FirstBadPure(run, scs, base, ill, hc) ==      \* no recursion: runs of this kind are long
+    LET B == { i \in DOMAIN run : ~StepOKPure(run[i], scs, base, ill, hc) } IN
+    IF B = {} THEN 0 ELSE CHOOSE i \in B : \A j \in B : i <= j
 
 (* ---- expressions with stateful functions: follow the function state of every copy ---- *)
-(* the set of copy-state assignments that explain a step, from one assignment c *)
-StepCands(ast, scs, s, c) ==
-    LET k == s[1]  mode == s[2]  cp == s[3]  got == s[4] IN
-    IF mode = "Z" THEN {[c EXCEPT ![cp] = St0(ast)]}
-    ELSE IF ~scs[k].ok THEN (IF IsErr(got) THEN {c} ELSE {})
-    ELSE LET r == EvalTop(ast, scs[k].sc, c[cp])
-             ill == TypeStrict(ast, scs[k].sc) = "err"
-         IN IF ~OutcomeAgrees(mode, got, r[1], ill) THEN {}
-            ELSE IF mode = "T" THEN {c}
-            ELSE IF IsErr(got)
-                 THEN { [c EXCEPT ![cp] = x] : x \in ErrStates(c[cp], EvalAll(ast, <<>>, scs[k].sc, c[cp], <<>>)[2]) }
-                 ELSE {[c EXCEPT ![cp] = r[2]]}
+(* The copies are independent in the reference semantics, so the function states that can explain the  *)
+(* observations so far are tracked per copy: cands[cp] is a set of states.  StepSet gives the states of  *)
+(* the addressed copy after a step (empty: the step cannot be explained).                                *)
+StepSet(ast, scs, s, S) ==
+    LET k == s[1]  mode == s[2]  got == s[4] IN
+    IF mode = "Z" THEN {St0(ast)}
+    ELSE IF ~scs[k].ok THEN (IF IsErr(got) THEN S ELSE {})
+    ELSE LET ill == TypeStrict(ast, scs[k].sc) = "err"
+             hc == HasCall(ast)
+             after(c) == LET r == EvalTop(ast, scs[k].sc, c) IN
+                         IF ~OutcomeAgrees(mode, got, r[1], ill, hc) THEN {}
+                         ELSE IF mode = "T" THEN {c}
+                         ELSE IF IsErr(got) THEN ErrStates(c, EvalAll(ast, <<>>, scs[k].sc, c, <<>>)[2])
+                         ELSE {r[2]}
+         IN UNION { after(c) : c \in S }
 RECURSIVE FirstBadStateful(_, _, _, _, _)
 FirstBadStateful(ast, scs, run, i, cands) ==
     IF i > Len(run) THEN 0
-    ELSE LET nxt == UNION { StepCands(ast, scs, run[i], c) : c \in cands } IN
-         IF nxt = {} THEN i ELSE FirstBadStateful(ast, scs, run, i + 1, nxt)
+    ELSE LET cp == run[i][3]
+             nxt == StepSet(ast, scs, run[i], cands[cp])
+         IN IF nxt = {} THEN i ELSE FirstBadStateful(ast, scs, run, i + 1, [cands EXCEPT ![cp] = nxt])
 
 (* ---- history independence as such: equal own histories give equal outcomes ---- *)
 (* own history of step i: the calls made on the same copy since the run began or the copy was Reset *)
@@ -71,29 +73,35 @@ HistoryIndependent(runs, stateful) ==
                            NormOut(runs[r][i][4])>> : i \in { j \in DOMAIN runs[r] : runs[r][j][2] # "Z" } } : r \in DOMAIN runs }
     IN Functional(obs)
 
+(* TLC re-evaluates a LET definition at every use when it depends on the state: the tables of a line are bound *)
+(* once as values through a quantifier over a singleton set instead.                                         *)
 LineOK(ln, lineNo) ==
     LET ast == ln.x IN
     IF "nocompile" \in DOMAIN ln
-    THEN MustErr(ast) \/ (PrintT(<<"C04-REJECT", "line", lineNo, "compile error for an expression that can be evaluated">>) /\ FALSE)
-    ELSE LET stateful == HasStateful(ast)
-             scs == <<>> \o [k \in DOMAIN ln.sc |-> ScopeOf(ast, ln.sc[k])]
-             base == <<>> \o [k \in DOMAIN ln.sc |-> IF scs[k].ok THEN EvalTop(ast, scs[k].sc, St0(ast))[1] ELSE Err]
-             ill == [k \in DOMAIN ln.sc |-> scs[k].ok /\ TypeStrict(ast, scs[k].sc) = "err"]
-             c0 == [cp \in CopyIds |-> St0(ast)]
-             bad(r) == IF stateful THEN FirstBadStateful(ast, scs, ln.runs[r], 1, {c0})
-                       ELSE FirstBadPure(ln.runs[r], 1, scs, base, ill)
-             badRuns == { r \in DOMAIN ln.runs : bad(r) # 0 }
+    THEN IF MustErr(ast) THEN TRUE     \* (no disjunction here: TLC would evaluate both disjuncts of an action)
+         ELSE PrintT(<<"C04-REJECT", "line", lineNo, "compile error for an expression that can be evaluated">>) /\ FALSE
+    ELSE \E stateful \in {HasStateful(ast)} :
+         \E scs \in {<<>> \o [k \in DOMAIN ln.sc |-> ScopeOf(ast, ln.sc[k])]} :
+         \E base \in {IF stateful THEN <<>>
+                       ELSE <<>> \o [k \in DOMAIN ln.sc |-> IF scs[k].ok THEN EvalTop(ast, scs[k].sc, St0(ast))[1] ELSE Err]} :
+         LET ill == [k \in DOMAIN ln.sc |-> scs[k].ok /\ TypeStrict(ast, scs[k].sc) = "err"]
+             c0 == [cp \in CopyIds |-> {St0(ast)}]
+             bad(r) == IF stateful THEN FirstBadStateful(ast, scs, ln.runs[r], 1, c0)
+                       ELSE FirstBadPure(ln.runs[r], scs, base, ill, HasCall(ast))
              opaque == stateful \/ \E k \in DOMAIN base : IsAny(base[k])
-         IN IF badRuns # {}
-            THEN LET r == CHOOSE x \in badRuns : \A y \in badRuns : x <= y IN
-                 PrintT(<<"C04-REJECT", "line", lineNo, "run", r, "step", bad(r), ln.runs[r][bad(r)],
-                          "input", ln.sc[ln.runs[r][bad(r)][1]]>>) /\ FALSE
+         IN \E badRuns \in {{ r \in DOMAIN ln.runs : bad(r) # 0 }} :
+            IF badRuns # {}
+            THEN LET r == CHOOSE x \in badRuns : \A y \in badRuns : x <= y
+                     i == bad(r)
+                 IN PrintT(<<"C04-REJECT", "line", lineNo, "run", r, "step", i, ln.runs[r][i], "input", ln.sc[ln.runs[r][i][1]]>>) /\ FALSE
             ELSE IF opaque /\ ~HistoryIndependent(ln.runs, stateful)
             THEN PrintT(<<"C04-REJECT", "line", lineNo, "equal histories with different outcomes">>) /\ FALSE
             ELSE TRUE
 
 TrInit == l = 1 /\ HWInit
-TrNext == l <= Len(Trace) /\ LineOK(Trace[l], l) /\ l' = l + 1
+(* triage aid: with env C04_SURVEY set every rejected line is printed and validation goes on (never used by the check) *)
+Survey == "C04_SURVEY" \in DOMAIN IOEnv
+TrNext == l <= Len(Trace) /\ (IF LineOK(Trace[l], l) THEN TRUE ELSE Survey) /\ l' = l + 1
 TrSpec == TrInit /\ [][TrNext]_l
 
 HW == HWMark(l)
